@@ -59,7 +59,7 @@ def make_plan(rng, tier, index):
     plan["monitor"] = True
     plan["logger"] = True
     plan["supply_targets"] = rng.random() < 0.6
-    if rng.random() < 0.3 and trainsim.ADAPTERS[name].has_global_step:
+    if rng.random() < (0.7 if name in ("mrq", "td7") else 0.4) and trainsim.ADAPTERS[name].has_global_step:
         # resume: the update cadence must continue from the returned counter, not restart
         T = plan["chain"][0]["total_timesteps"]
         cut = rng.randint(max(2, T // 3), T - 2)
